@@ -166,7 +166,7 @@ stays pending for the tower, it is shown reachable, and no idle retrier is left 
 theorem delivers_after_recovery (s : St) (t : TowerId) (h : Inv s.client) (sm : Summary)
     (ht : s.client.towers t = some sm) (hst : sm.status ≠ .subscriptionError)
     (hmis : sm.status ≠ .misbehaving)
-    (hb : classify (s.beh t) = .accepted) (hne : sm.pending ≠ []) :
+    (hb : classify (s.beh t) = .accepted) (hsteady : (s.beh t).once = 0) (hne : sm.pending ≠ []) :
     let s' := s.retry t (s.pendingOf t)
     (∀ l ∈ sm.pending, (s'.client.store.rcpts t l).isSome = true) ∧
     (∀ l, (t, l) ∉ s'.client.store.pending) ∧
@@ -206,9 +206,12 @@ theorem delivers_after_recovery (s : St) (t : TowerId) (h : Inv s.client) (sm : 
       simp only
       have : classify ((s.withClient c0).beh t) = .accepted := hb
       rw [this]
-      show ((s.withClient c0).withClient (sendAll c0 t .accepted sm.pending).1,
+      have hcons : ∀ x : St, x.beh = s.beh → x.consume t = x := by
+        intro x hx; unfold St.consume; rw [hx, hsteady]; simp
+      show (((s.withClient c0).withClient (sendAll c0 t .accepted sm.pending).1).consume t,
         (sendAll c0 t .accepted sm.pending).2) = _
       rw [r1]
+      exact congrArg (·, RunResult.ok) (hcons _ rfl)
     show (match runRetrier 4 (s.withClient c0) t sm.pending with
       | (s1, r) => _) = _
     rw [runRetrier_done 3 _ _ t sm.pending .ok hone (by intro e; cases e)]
@@ -257,18 +260,19 @@ theorem delivers_after_recovery (s : St) (t : TowerId) (h : Inv s.client) (sm : 
 a call of `Retrier::run` changes nothing and returns a transient error to the back-off — it
 never goes round again on its own (the defect repaired by fix 13da8a9) -/
 theorem run_returns_to_backoff (s : St) (t : TowerId) (l : Loc) (ls : List Loc)
-    (hst : s.status t ≠ some .subscriptionError)
+    (hst : s.status t ≠ some .subscriptionError) (hsteady : (s.beh t).once = 0)
     (hb : classify (s.beh t) = .connErr ∨ classify (s.beh t) = .unparsable) :
     runOnce s t (l :: ls) = (s, .transient) := by
+  have hcons : s.consume t = s := by unfold St.consume; rw [hsteady]; simp
   unfold runOnce reRegister
   simp only [hst, ↓reduceIte]
-  rcases hb with hb | hb <;> rw [hb] <;> simp [sendAll, St.withClient]
+  rcases hb with hb | hb <;> rw [hb] <;> simp only [sendAll, St.withClient] <;> exact congrArg (·, RunResult.transient) hcons
 
 /-- **a tower that keeps failing ends up unreachable with its data retained**: the retrier
 gives up, goes idle, and the file is exactly what it was -/
 theorem gives_up_keeps_data (s : St) (t : TowerId) (l : Loc) (ls : List Loc) (sm : Summary)
     (ht : s.client.towers t = some sm) (hst : sm.status ≠ .subscriptionError)
-    (hmis : sm.status ≠ .misbehaving)
+    (hmis : sm.status ≠ .misbehaving) (hsteady : (s.beh t).once = 0)
     (hb : classify (s.beh t) = .connErr ∨ classify (s.beh t) = .unparsable) :
     let s' := s.retry t (l :: ls)
     s'.client.store = s.client.store ∧ s'.status t = some .unreachable ∧ s'.idle t = true := by
@@ -280,7 +284,7 @@ theorem gives_up_keeps_data (s : St) (t : TowerId) (l : Loc) (ls : List Loc) (sm
     simp [ht, hmis, Client.setSummary]
   have hne0 : s0.status t ≠ some .subscriptionError := by rw [hst0]; intro e; cases e
   have hb0 : classify (s0.beh t) = .connErr ∨ classify (s0.beh t) = .unparsable := hb
-  have hone := run_returns_to_backoff s0 t l ls hne0 hb0
+  have hone := run_returns_to_backoff s0 t l ls hne0 hsteady hb0
   have hrr : runRetrier 4 s0 t (l :: ls) = (s0, .transient) := runRetrier_stuck s0 t _ hone 4
   have : s' = { s0 with client := s0.client.setStatus t .unreachable,
                         idle := fun x => if x = t then true else s0.idle x } := by
@@ -308,7 +312,8 @@ theorem unreachable_tower_not_contacted (s : St) (t : TowerId) (l : Loc) (sm : S
 /-- a retrier created by the handler starts from everything that is pending for the tower (fix
 e54e604), so success means nothing at all is left pending -/
 theorem new_retrier_takes_all_pending (s : St) (t : TowerId) (l : Loc) (s1 : St)
-    (h : hookTower s t l = (s1, true)) : notifyTower s t l = s1.retry t (s1.pendingOf t) := by
+    (h : hookTower s t l = (s1, true)) :
+    notifyTower s t l = (s1.consumeIf (asked s t l) t).retry t (s1.pendingOf t) := by
   unfold notifyTower; rw [h]
 
 /-- non-vacuity: outage, two revocations, recovery, manual retry: both delivered -/
